@@ -48,6 +48,36 @@ func runHist(h []int, _ json.RawMessage) (out xplore.Out) {
 		}
 	}
 	out.Digest = x.Digest()
+	check := func(y *walletlab.Inst, when string) string {
+		out.Checks++
+		if prop == "C24" {
+			fs, o := y.CheckC24()
+			add(fs, when)
+			return o
+		}
+		fs := y.CheckC25()
+		add(fs, when)
+		return fmt.Sprintf("violations=%d", len(fs))
+	}
+	if !synced {
+		// a wallet that lags behind a reorganisation (the chain did not grow past its height) gets a rescan request:
+		// on a second instance, so that the closing restart below still starts from the lagging state
+		if y, err := W.NewInst(); err == nil {
+			for _, ei := range h {
+				y.Apply(W.Events[ei])
+			}
+			y.Apply(walletlab.Ev{Kind: "rescan"})
+			switch {
+			case y.RescanIgnored:
+				out.Viols = append(out.Viols, xplore.Viol{Key: "rescan-request-not-taken-up", What: fmt.Sprintf("after %v", W.Describe(h))})
+			case y.Synced():
+				outcome += " rescan-while-lagging:" + check(y, "rescan requested while the wallet lagged")
+			default:
+				outcome += " rescan-while-lagging:still-lagging"
+			}
+			y.In.DB.Wipe()
+		}
+	}
 	// closing step: restart node and wallet (the restarted wallet walks to the chain's best block at once)
 	x.Apply(walletlab.Ev{Kind: "restart"})
 	if x.WaitSync(20 * time.Second) {
@@ -60,6 +90,13 @@ func runHist(h []int, _ json.RawMessage) (out xplore.Out) {
 			fs := x.CheckC25()
 			add(fs, "after restart")
 			outcome += fmt.Sprintf(" restart:violations=%d", len(fs))
+		}
+		// and a rescan of the restarted, caught-up wallet
+		x.Apply(walletlab.Ev{Kind: "rescan"})
+		if x.RescanIgnored {
+			out.Viols = append(out.Viols, xplore.Viol{Key: "rescan-request-not-taken-up", What: fmt.Sprintf("after restart after %v", W.Describe(h))})
+		} else if x.Synced() {
+			outcome += " rescan:" + check(x, "rescan after restart")
 		}
 	} else {
 		outcome += " restart:lagging"
